@@ -123,6 +123,12 @@ CLAIMS = {
         "note": "extract_blocks' bookkeeping over Form objects (empty blocks -> None, arity inference) is not lifted. " + TB,
         "technique": "abstract interpretation of the splitting pass on structured symbolic integrands + exact comparison with the projected integrand",
     },
+    "C29": {
+        "level": "other",
+        "text": "cmp_expr and the terminal comparators (dispatch table _terminal_cmps built by evaluating sorting.py's own module-level assignments) are lifted and evaluated on all ordered pairs of a finite universe of abstract expressions (every terminal kind with a dedicated comparator, repr-ordered terminals, multi-indices of different lengths and fixed/free patterns incl. the prefix triple, counters across a digit boundary, operators with shared and with duplicated equal sub-expressions, nodes with different operand counts, arguments with and without parts): antisymmetry on all pairs, transitivity on all triples, ties only between expressions equal up to Index/Label numbers, and an unchanged sign matrix under renumbering of indices and labels (no comparator reads those counts). Sum, Product and Inner __new__ are lifted on both operand orders of every distinguishable pair and must build the same node.",
+        "note": "Exhaustive on the finite universe (54+ expressions, ~160k triples), not on all expressions; typecodes modelled by class names, repr of repr-ordered terminals by fixed distinct strings, hash() by a structural hash. " + TB,
+        "technique": "abstract interpretation of the comparator and the constructors' sorting branch on a finite universe of abstract expression objects; exhaustive order-axiom check on the resulting sign matrix",
+    },
 }
 
 NOT_APPLICABLE = {
